@@ -1,4 +1,14 @@
-"""C03 implementation driver: 'driver' cases (as C02), and 'program' cases = whole models built from the public API."""
+"""C03 implementation driver: 'driver' cases (as C02), 'phi1d' = the equilibrium density, and 'program' cases = whole
+models built from the public API.
+
+stdin: JSON list of cases -> JSON list of {'id', 'res', 'mask'} | {'id', 'error'} (all cases in THIS process, in list order).
+
+Sessions (harness/props/c03_orders.py): stdin {'sessions': [{'id': str, 'calls': [case...]}...]} ->
+  {'sessions': [{'id', 'pid', 'results': [{'pos', 'pid', 'res', 'mask'} | {'pos', 'pid', 'error'}...]}...], 'parent': pid}.
+  Every session runs in its OWN process forked from this interpreter right after `import dadi` (no dadi call has been made in
+  the parent, which never evaluates a call itself: every module-level memo is empty at the start of a session), its calls
+  strictly in list order.  A session with one call is the "pristine interpreter" value of that call.
+"""
 import sys, os, json, warnings
 warnings.filterwarnings('ignore')
 sys.path.insert(0, os.path.dirname(os.path.abspath(__file__)))
@@ -8,17 +18,26 @@ import dadi
 from dadi import Integration, PhiManip
 import c02_impl
 
+SEGS = []      # lengths of the pieces of the last traced program (harness bookkeeping only)
+
 def program(c):
     """steps: list of dicts; state = (phi, xx). Returns flattened final object (phi or spectrum)."""
     Integration.timescale_factor = c['tf']
     Integration.use_delj_trick = False
+    try:
+        return _program(c)
+    finally:
+        Integration.timescale_factor = 1e-3
+
+def _program(c):
     xx = np.array(c['grid'], dtype=float)
     phi = None
     out = None
+    trace = [] if c.get('trace') else None
     for st in c['steps']:
         op = st['op']
         if op == 'phi_1D':
-            phi = PhiManip.phi_1D(xx, nu=st['nu'], theta0=st['theta0'], gamma=st['gamma'], h=st['h'])
+            phi = PhiManip.phi_1D(xx, nu=st['nu'], theta0=st['theta0'], gamma=st['gamma'], h=st['h'], **({'beta': st['beta']} if 'beta' in st else {}))
         elif op == 'one_pop':
             phi = Integration.one_pop(phi, xx, st['T'], nu=st['nu'], gamma=st['gamma'], h=st['h'], theta0=st['theta0'])
         elif op == 'split12':
@@ -38,35 +57,97 @@ def program(c):
             phi = PhiManip.phi_2D_to_3D_split_2(xx, phi)
         elif op == 'three_pops':
             n = st['nu']; m = st['m']; g = st['gamma']
+            hk = {'h%d' % (i + 1): v for i, v in enumerate(st['h'])} if 'h' in st else {}
             phi = Integration.three_pops(phi, xx, st['T'], nu1=n[0], nu2=n[1], nu3=n[2], m12=m[0], m13=m[1], m21=m[2], m23=m[3], m31=m[4], m32=m[5],
-                                         gamma1=g[0], gamma2=g[1], gamma3=g[2], theta0=st['theta0'])
+                                         gamma1=g[0], gamma2=g[1], gamma3=g[2], theta0=st['theta0'], **hk)
+        elif op == 'split34':
+            phi = PhiManip.phi_3D_to_4D(phi, st['f'][0], st['f'][1], xx, xx, xx, xx)
+        elif op == 'split45':
+            phi = PhiManip.phi_4D_to_5D(phi, st['f'][0], st['f'][1], st['f'][2], xx, xx, xx, xx, xx)
+        elif op in ('four_pops', 'five_pops'):
+            d = 4 if op == 'four_pops' else 5
+            kw = {'theta0': st['theta0']}
+            for i in range(d):
+                kw['nu%d' % (i + 1)] = st['nu'][i]; kw['gamma%d' % (i + 1)] = st['gamma'][i]; kw['h%d' % (i + 1)] = st['h'][i]
+            pairs = [(i, j) for i in range(d) for j in range(d) if i != j]
+            for (i, j), v in zip(pairs, st['m']):
+                kw['m%d%d' % (i + 1, j + 1)] = v
+            phi = (Integration.four_pops if d == 4 else Integration.five_pops)(phi, xx, st['T'], **kw)
         elif op == 'remove':
             phi = PhiManip.remove_pop(phi, xx, st['k'])
         elif op == 'from_phi':
             out = dadi.Spectrum.from_phi(phi, st['ns'], [xx] * phi.ndim)
         else:
             raise ValueError(op)
-    Integration.timescale_factor = 1e-3
+        if trace is not None and op != 'from_phi':
+            trace.append(np.array(phi, dtype=float).ravel())
+    if trace is not None:
+        # every density of the model in order (equilibrium, after each epoch / split / pulse), then the spectrum
+        vals = [float(t) for a in trace for t in a]; mask = [False] * len(vals)
+        SEGS[:] = [len(a) for a in trace]
+        if out is not None:
+            vals += [float(t) for t in np.asarray(out.data).ravel()]; mask += [bool(t) for t in np.ma.getmaskarray(out).ravel()]
+            SEGS.append(out.size)
+        return vals, mask
     if out is not None:
         return [float(t) for t in np.asarray(out.data).ravel()], [bool(t) for t in np.ma.getmaskarray(out).ravel()]
     return [float(t) for t in np.asarray(phi).ravel()], None
 
+def one(c):
+    rec = {}
+    try:
+        if c['kind'] == 'driver':
+            rec['res'] = c02_impl.driver(c)
+            rec['mask'] = None
+        elif c['kind'] == 'phi1d':
+            xx = np.array(c['grid'], dtype=float)
+            rec['res'] = [float(t) for t in PhiManip.phi_1D(xx, nu=c['nu'], theta0=c['theta0'], gamma=c['gamma'], h=c['h'], beta=c['beta'])]
+            rec['mask'] = None
+        else:
+            rec['res'], rec['mask'] = program(c)
+            if c.get('trace'):
+                rec['segs'] = list(SEGS)
+    except Exception as e:
+        rec['error'] = type(e).__name__ + ': ' + str(e)[:300]
+    return rec
+
+def run_session(sess):
+    """the calls of one session, in order, in a process of their own (forked before any dadi call was made)"""
+    rd, wr = os.pipe()
+    sys.stdout.flush(); sys.stderr.flush()
+    pid = os.fork()
+    if pid == 0:
+        code = 0
+        try:
+            os.close(rd)
+            out = []
+            for pos, c in enumerate(sess['calls']):
+                r = one(c); r['pos'] = pos; r['pid'] = os.getpid()
+                out.append(r)
+            with os.fdopen(wr, 'w') as f:
+                f.write(json.dumps(out))
+        except BaseException as e:
+            sys.stderr.write('session %s: %r\n' % (sess.get('id'), e)); code = 1
+        os._exit(code)
+    os.close(wr)
+    with os.fdopen(rd) as f:
+        txt = f.read()
+    _, status = os.waitpid(pid, 0)
+    if status != 0 or not txt:
+        return {'id': sess.get('id'), 'pid': pid, 'results': [{'error': 'session process died (status %d)' % status, 'pos': k, 'pid': pid}
+                                                                for k in range(len(sess['calls']))]}
+    return {'id': sess.get('id'), 'pid': pid, 'results': json.loads(txt)}
+
 def main():
     cases = json.load(sys.stdin)
+    if isinstance(cases, dict) and 'sessions' in cases:
+        print(json.dumps({'sessions': [run_session(s) for s in cases['sessions']], 'parent': os.getpid()}))
+        return
     out = []
     for c in cases:
-        rec = {'id': c['id']}
-        try:
-            if c['kind'] == 'driver':
-                rec['res'] = c02_impl.driver(c)
-            elif c['kind'] == 'phi1d':
-                xx = np.array(c['grid'], dtype=float)
-                rec['res'] = [float(t) for t in PhiManip.phi_1D(xx, nu=c['nu'], theta0=c['theta0'], gamma=c['gamma'], h=c['h'], beta=c['beta'])]
-                rec['mask'] = None
-            else:
-                rec['res'], rec['mask'] = program(c)
-        except Exception as e:
-            rec['error'] = type(e).__name__ + ': ' + str(e)[:300]
+        rec = one(c); rec['id'] = c['id']
+        if 'error' in rec:
+            rec.pop('res', None); rec.pop('mask', None)
         out.append(rec)
     print(json.dumps(out))
 if __name__ == '__main__':
